@@ -7,6 +7,7 @@ import PynModel.Process.Spectrum
 import PynModel.Process.Tuning
 import PynModel.Core.NumpyWrap
 import PynModel.Kernels.Eta
+import PynModel.Core.Trial
 /-!
 # Line protocol, part 2: container-level operations (series constructor and histories)
 `snew <t> <rows> <sup|none>`            → `t|rows|sup|num/den`
@@ -269,6 +270,20 @@ def etaStep (toks : List String) : String :=
     | _, _, _, _, _, _, _, _, _ => "bad-op"
   | _ => "bad-op"
 
+/-- `trial t pairs align(0 start / 1 end)` → rows `|`-separated, cells `,`-separated, `-` = padding -/
+def trialStep (toks : List String) : String :=
+  match toks with
+  | ["trial", t, tr, al] =>
+    match parseArr t, parsePairs tr, parseBool al with
+    | some t, some tr, some al =>
+      match trialTensor t tr.toList al with
+      | .ok rows => "|".intercalate (rows.map fun r =>
+          if r.size == 0 then "." else ",".intercalate (r.toList.map fun c => match c with | some k => toString k | none => "-"))
+      | .error .index => "ERR index"
+      | .error .value => "ERR value"
+    | _, _, _ => "bad-op"
+  | _ => "bad-op"
+
 def stepAll (line : String) : String :=
   let toks := (line.trimAscii.toString.splitOn " ").filter (· ≠ "")
   match toks with
@@ -286,6 +301,7 @@ def stepAll (line : String) : String :=
   | "tdiff" :: _ => metaStep toks
   | "tsplit" :: _ => metaStep toks
   | "eta" :: _ => etaStep toks
+  | "trial" :: _ => trialStep toks
   | _ => kernelStep toks
 
 end Pyn
